@@ -143,6 +143,11 @@ def _make_empty_cog(
         enumarg,
     )
 
+    if np.dtype(dtype) == np.bool_:
+        # tiles of a bool image are bytes of 0/1, a bool header would declare
+        # 1 bit per sample (GDAL has no boolean type either)
+        dtype = np.dtype("uint8")
+
     predictor, compression, compressionargs = _norm_compression_tifffile(
         dtype,
         predictor,
